@@ -174,6 +174,14 @@ def runPlan (w : World) (_actor : Id) (plan : Plan) (inject : Option (String × 
           else (s, q, ires)
         | none => (s, q, ires)
       let pv := isVals e
+      -- a southbound request over a connection that has gone meanwhile (a fault inside a pre-emption)
+      -- is lost: the invocation returns the error
+      let connGone : Bool := match e with
+        | .dev r => (match s.rel? r.conn with
+            | some rel => !rel.conn
+            | none => true)
+        | _ => false
+      if connGone && hook.isSome then (s, q, k + 1, true, false, ires) else
       match inject with
       | some ("fail", n) =>
         if n = k then
@@ -328,9 +336,31 @@ def handleIO (op : String) (args : List String) : IO (Option String) := do
         | some v =>
           match v.splitOn ":" with
           | kS :: idToks =>
-            match kS.toNat?, decId (":".intercalate idToks) with
-            | some k, some bid =>
+            let items := (":".intercalate idToks).splitOn "+"
+            let decFault : String → Option Fault := fun it =>
+              match ((it.drop 2).toString).splitOn "." with
+              | ["relup", id, t] => do pure (.relUp { id := (← id.toNat?), target := (← t.toNat?) })
+              | ["reldown", id] => do pure (.relDown (← id.toNat?))
+              | ["conndown", id] => do pure (.connDown (← id.toNat?))
+              | ["connup", id] => do pure (.connUp (← id.toNat?))
+              | ["devrestart", t] => do pure (.devRestart (← t.toNat?))
+              | _ => none
+            let faults := (items.filter (·.startsWith "F.")).filterMap decFault
+            let rids := items.filter (fun it => !it.startsWith "F.")
+            match kS.toNat?, rids with
+            | some k, [] =>
               some (k, fun s =>
+                let s1 := faults.foldl applyFault s
+                let cfgs := (s1.cfgs.toArray.qsort (fun a b => a.target < b.target)).toList
+                let mid := if cfgs.isEmpty then "-" else
+                  "+".intercalate (cfgs.map fun c => s!"{c.target}.{c.committed}.{c.applied}.{c.master}.{c.term}.{c.appliedTerm}")
+                (s1, [], s!"ires=-/0/0/{mid}"))
+            | some k, [ridTok] =>
+              match decId ridTok with
+              | none => none
+              | some bid =>
+              some (k, fun s =>
+                let s := faults.foldl applyFault s
                 let wB : World := { sys := s }
                 let envB0 : Env := { persistent := st.persistent.contains (tgtOf bid) }
                 let (wB0, envB) := prepare wB bid envB0 rest "i."
